@@ -30,7 +30,23 @@ class C03(SnapCheck):
         rng = self.rng
         quick = self.tier == "quick"
         now = framework.DEFAULT_NOW
-        out = {"datasets": [], "histories": [], "malformed": [], "trigger": []}
+        out = {"datasets": [], "histories": [], "malformed": [], "trigger": [], "write-during-snapshot": []}
+        # a client served between the state copy and the encoding of a snapshot: the snapshot must hold the dataset of
+        # the instant of the copy, whatever the command does to values the copy refers to (sets, sorted sets, hashes, lists)
+        during = [["SADD", "s", "late"], ["SREM", "s", "m1"], ["SREM", "s", "m2", "m3"], ["SMOVE", "s", "t", "m1"], ["ZADD", "z", "9", "late"],
+                  ["ZINCRBY", "z", "5", "m"], ["ZREM", "z", "m"], ["HSET", "h", "late", "1"], ["HDEL", "h", "f"], ["HINCRBY", "h", "n", "2"],
+                  ["RPUSH", "l", "late"], ["LPOP", "l"], ["LSET", "l", "0", "q"], ["APPEND", "a", "+"], ["DEL", "s"], ["FLUSHDB"],
+                  ["SET", "new", "1"], ["EXPIRE", "a", "100"], ["RENAME", "a", "b"], ["SUNIONSTORE", "s", "s", "t"]]
+        for i, argv in enumerate(during if quick else during * 6):
+            s = Script("ws%d" % i, {})
+            db = [0, 0, 1][i % 3]
+            s.preset(db, "s", vset(["m1", "m2", "m3"]), 0).preset(db, "t", vset(["x"]), 0).preset(db, "z", vzset({"m": "1/1", "n": "2/1"}), 0)
+            s.preset(db, "h", vhash({"f": vstr("v"), "n": vint(1)}), 0).preset(db, "l", vlist(["x", "y"]), 0).preset(db, "a", vstr("txt"), now + 50000)
+            conn = 0 if db == 0 else 1
+            if conn: s.raw("N 1").cmd(1, "SELECT", str(db))
+            s.digest().raw("KW %d %s" % (conn, " ".join(hx(a) for a in argv)), ["raw", "KW"])
+            s.digest().raw("T").digest().cmd(0, "LASTSAVE")
+            out["write-during-snapshot"].append(s)
         for i in range(60 if quick else 3000):
             s = Script("ds%d" % i, {})
             put_dataset(s, rng, now, rng.randrange(1, 9))
